@@ -112,6 +112,8 @@ class Dep:
             return True
         if idx.op == "ViewIdx":
             return self._is_mask(idx.args[1])
+        if idx.op == "Tuple":
+            return any(self._is_mask(a) for a in idx.args)
         return False
 
     # ------------------------------------------------------------------ queries
